@@ -141,8 +141,10 @@ class Ctx:
             return
         self.ob_keys.add(key)
         name = base
-        self.obligations.append(Obligation(name, kind, self.funcname, line, st.pc, goal, path, text,
-                                           observables=dict(getattr(st, "observables", {}) or {})))
+        from .expr import RD_HINTS
+        ob = Obligation(name, kind, self.funcname, line, st.pc, goal, path, text)
+        ob.observables = list(RD_HINTS.values())
+        self.obligations.append(ob)
 
     def feasible(self, pc):
         """quick pruning check; True unless proved unsat quickly"""
